@@ -214,6 +214,7 @@ package mq
 //@ func (*Connect).SetWill
 //@   inline
 //@   requires will != nil
+//@   requires (will.fixed & 240) == 48                                                 #C02
 //@   ensures (p.flags & 4) != 0                                                        #C12
 //@   ensures will.QoS() <= 2 ==> ((p.flags >> 3) & 3) == will.QoS()                    #C12
 //@   ensures ((p.flags & 32) != 0) == will.Retain()                                    #C12
@@ -376,23 +377,20 @@ package mq
 //@   assigns data[i:i+2+len(v)]
 //@   ensures result == 2 + len(v)
 //@   ensures i + 2 + len(v) <= len(data) ==> wuint16(specU16(data[i], data[i+1])) == wuint16(len(v))   #C02
-//@   requires disjoint(v, data)                                                                   #C02
-//@   ensures forall k in 0..len(v): i + 2 + len(v) <= len(data) ==> data[i+2+k] == v[k]           #C02
+//@   ensures disjoint(v, data) ==> (forall k in 0..len(v): i + 2 + len(v) <= len(data) ==> data[i+2+k] == v[k])   #C02
 
 //@ func (bindata).fillProp
 //@   requires 0 <= i
 //@   assigns data[i:i+(len(v) == 0 ? 0 : 3 + len(v))]
 //@   ensures result == (len(v) == 0 ? 0 : 3 + len(v))
 //@   ensures len(v) != 0 && i + 3 + len(v) <= len(data) ==> data[i] == byte(id) && wuint16(specU16(data[i+1], data[i+2])) == wuint16(len(v))   #C02
-//@   requires disjoint(v, data)                                                                   #C02
-//@   ensures forall k in 0..len(v): len(v) != 0 && i + 3 + len(v) <= len(data) ==> data[i+3+k] == v[k]   #C02
+//@   ensures disjoint(v, data) ==> (forall k in 0..len(v): len(v) != 0 && i + 3 + len(v) <= len(data) ==> data[i+3+k] == v[k])   #C02
 
 //@ func (rawdata).fill
 //@   requires 0 <= i
 //@   assigns data[i:i+len(v)]
 //@   ensures result == len(v)
-//@   requires disjoint(v, data)                                                                   #C02
-//@   ensures forall k in 0..len(v): i + len(v) <= len(data) ==> data[i+k] == v[k]                 #C02
+//@   ensures disjoint(v, data) ==> (forall k in 0..len(v): i + len(v) <= len(data) ==> data[i+k] == v[k])   #C02
 
 //@ func (UserProp).fill
 //@   requires 0 <= i
@@ -743,6 +741,8 @@ package mq
 
 //@ func (*Subscribe).AddFilters
 //@   inline
+//@   -- the flat memory model cannot separate the spare capacity of the list from the packet's own fields
+//@   requires apart(p.filters, p)                                                      #C02
 //@   ensures len(p.filters) == old(len(p.filters)) + len(v)                                                    #C12
 //@   ensures forall k in 0..len(v): p.filters[old(len(p.filters)) + k] == old(v[k])                                 #C12
 //@   ensures forall k in 0..old(len(p.filters)): p.filters[k] == old(p.filters[k])                             #C12
